@@ -61,7 +61,9 @@ def run_cases(cases, V, procs=16, tlc_timeout=3000):
             continue
         sc, index, mixed = SC.from_problem(p, vs, c.get("mode", "incremental"), c.get("priority", "pareto"),
                                            c.get("max_iter"), c.get("tracked", ()), c.get("unknown_ok", False),
-                                           c.get("outside_fragment", False))
+                                           c.get("outside_fragment", False),
+                                           # a time-limit stop is only a legal explanation when the scripted clock is in use
+                                           time_stops=c.get("clock_step") is not None)
         if mixed:
             skipped_unspec += 1
             continue
